@@ -14,7 +14,7 @@ RULE = (
     "sub-integration. Fault runs: R1/R2 on input (exact-or-raises). Non-trivial = a cube was compared with the model; "
     "distinct = distinct event digests among those."
 )
-PROBES = [">=3-blocks", "index-with-maxdelay>0", "nbands-not-dividing-nchans", "accel!=0", "accel-moves-bins", "near-integer-period-ratio",
+PROBES = [">=3-blocks", "index-with-maxdelay>0", "nbands-not-dividing-nchans", "accel!=0", "accel-moves-bins", "exact-tie-samples", "near-integer-period-ratio",
           "two-gulps-compared", "counts-observed", "pulse-train", "kind:fil", "kind:tim", "gulp-raised-to-2maxdelay", "fault-raised"]
 COMPONENTS = {
     "real": ["sigpyproc.base.Filterbank.fold", "sigpyproc.timeseries.TimeSeries.fold", "kernels.fold (compiled)", "FilReader.read_plan", "FoldedData container"],
@@ -23,7 +23,7 @@ COMPONENTS = {
 }
 ASSUMPTIONS = [
     "full-range folds only (the statement's quantifier has no sub-ranges)",
-    "margin rule: scenarios with a model phase within 1e-4 bin of a bin edge are rejected, so float32-vs-float64 evaluation order cannot decide a verdict",
+    "margin rule: scenarios with a model phase within 1e-4 bin of a bin edge are rejected, so float32-vs-float64 evaluation order cannot decide a verdict - except exact ties at accel == 0 (phase an exact integer in rational arithmetic of the float32 inputs, e.g. period = 2^m * tsamp), where the documented int(x + 0.5) is decided exactly: upper bin",
     "cells with no sample assigned are not compared (0/0 in the library)",
     "per-channel delays are those the library reports (C09)",
 ]
